@@ -13,15 +13,15 @@ from harness import common
 
 BOUNDS = {
     "quick": {"clean": "variable of 3 values, each masked / NaN / -999 / >1e30 / ordinary", "token": "1 token",
-              "metrics": "9 metrics x 3 axes on 2 inputs of 2x1x2 cells (real, NaN; one cell may be +-inf)"},
+              "metrics": "12 metrics x 3 axes on 2 inputs of 2x1x2 cells (real, NaN; one cell may be +-inf)"},
     "thorough": {"clean": "variables of 4 values and of shape 2x2", "token": "1 token",
-                 "metrics": "9 metrics x 4 axes on 2 inputs of 2x2x2 cells"},
+                 "metrics": "12 metrics x 4 axes on 2 inputs of 2x2x2 cells"},
 }
 ASSUMPTIONS = ["a NetCDF variable is modelled as values + mask (what netCDF4 returns for fill/masked cells)",
                "cdf / quantile / ensemble / pit fields with missing values are decided in C08"]
 STUBS = ["netCDF4 variable: object with .shape and [:] returning a masked array"]
 
-METRICS = ["Mae", "Bias", "Rmse", "StdError", "Ef", "Dmb", "Obs", "Fcst", "Ets"]  # corr/nsec guards are non-linear in 4 pairs: C05 covers them
+METRICS = ["Mae", "Bias", "Rmse", "StdError", "Ef", "Dmb", "Obs", "Fcst", "Ets", "Pc", "N", "Within"]  # corr/nsec guards are non-linear in 4 pairs: C05 covers them
 
 
 class FakeVar(object):
@@ -124,7 +124,7 @@ def h_metrics(T, L, P, thorough):
                           obs=obs, fcst=fcst))
         D = data.Data(ins)
         t = S.real("t")
-        interval = util.get_intervals("above", S.vector([t]))[0] if name == "Ets" else None
+        interval = util.get_intervals("above", S.vector([t]))[0] if name in ("Ets", "Pc", "N", "Within") else None
         m = getattr(metric, name)()
         got = m.compute(D, 0, axis, interval)
         S.observe("scores", got)
@@ -163,8 +163,8 @@ def h_metrics(T, L, P, thorough):
             # same metric on the shortened vectors (its formula is C05's subject)
             if name in ("Obs", "Fcst"):
                 want = S.div(S.sum(o if name == "Obs" else f), len(o))
-            elif name == "Ets":
-                want = metric.Ets().compute_from_obs_fcst(S.vector(o), S.vector(f), interval)
+            elif name in ("Ets", "Pc", "N", "Within"):
+                want = getattr(metric, name)().compute_from_obs_fcst(S.vector(o), S.vector(f), interval)
             else:
                 want = getattr(metric, name)().compute_from_obs_fcst(S.vector(o), S.vector(f))
             S.prove("equals-score-of-deleted-data", S.same(got[i], want),
